@@ -294,8 +294,11 @@ static void run_ops(vh_rng* r, struct world* w, int nops, const char* who) {
       family_case(r, who);
     } else if (roll < 72) {
       if (h->p) { delete_held(h, w->stopped ? "-inside-stop-window" : ""); if (w->stopped) { vh_count("deletions_inside_stop_window"); } }
-    } else if (roll < 80 && !w->stopped) {
-      vh_op("%s collect", who);
+    } else if (roll < 80) {
+      /* a collection may also be forced inside a stop window: it traces and sweeps what was registered while the
+         collector ran (what is held stays, what was dropped goes); objects made inside the window are not its business */
+      vh_op("%s collect%s", who, w->stopped ? " [stopped]" : "");
+      if (w->stopped) { vh_count("forced_collections_inside_stop_window"); }
       collect_now();
     } else if (roll < 86) {
       /* garbage burst: threshold collections */
